@@ -258,10 +258,11 @@ MkRRset(r, cmp, zc) ==
         ttl |-> IF upd /\ FormZeroTtl(r.form) THEN <<0, 0>> ELSE r.ttl,
         rds |-> IF empty THEN <<>>
                 ELSE [i \in 1..(IF r.nrd = 0 THEN 1 ELSE r.nrd) |-> RdataItems(r.kind, r.n1, r.n2, r.k + step * (i - 1), cmp)]]
-\* OPT as a record set: options = sequence of <<code, length, fill>>
+\* OPT as a record set: options = sequence of <<code, body octets>> (generic pairs: the codec does
+\* not interpret option bodies)
 RECURSIVE OptionItems(_)
 OptionItems(os) == IF os = <<>> THEN <<>>
-                   ELSE <<<<"b", U16(os[1][1]) \o U16(os[1][2])>>, <<"z", os[1][2], os[1][3]>>>> \o OptionItems(Tail(os))
+                   ELSE <<<<"b", U16(os[1][1]) \o U16(Len(os[1][2])) \o os[1][2]>>>> \o OptionItems(Tail(os))
 MkOpt(payload, ttl, options) == [name |-> <<>>, type |-> TyOPT, cls |-> payload, ttl |-> ttl, rds |-> <<OptionItems(options)>>]
 \* TSIG as a record set (RFC 8945 4.2): algorithm name never compressed; t48 = time signed
 \* as 6 octets, mac = the MAC octets (a cryptographic value, taken as given)
